@@ -53,7 +53,7 @@ func runeString(r *gal.Rng, n int, urlSafe bool) string {
 		case x == 8 && r.Bool():
 			b.WriteString(fourByte[r.Intn(len(fourByte))])
 		case x == 8:
-			b.WriteString([]string{"\xff", "\xc0", "\x80", "\xe4"}[r.Intn(4)]) // each decodes to one U+FFFD
+			b.WriteString([]string{"\xff", "\xc0", "\x80", "\xe4", "\xbf", "\x9a"}[r.Intn(6)]) // each decodes to one U+FFFD (stray continuation bytes too)
 		default:
 			b.WriteString("é")
 		}
@@ -512,6 +512,42 @@ func runC01(c *Ctx) error {
 					w.Add("CW ("+term+")", desc, fmt.Sprintf("beyond-2^53:%s:%s:%d", rl, kind, dv))
 					w.Count("directed.beyond-2^53")
 				}
+			}
+		}
+	}
+	// ---- (G) text that is not well-formed UTF-8: every byte that cannot be decoded counts as one character
+	for _, s := range []string{"a\x80b", "\x80\x80", "中\x80", "\xe4\xb8", "\xbf", "ab\xc0\xaf", "\xf0\x9f\x98", "x\xed\xa0\x80y", "\x80中\x80文\x80"} {
+		n := int64(len([]rune(s)))
+		for _, rl := range sizeRules {
+			for _, db := range []int64{-1, 0, 1} {
+				b := n + db
+				marker++
+				mk := fmt.Sprintf("M%d", marker)
+				lo2, hi2 := b, b
+				var text string
+				switch rl {
+				case "to", "oto":
+					lo2, hi2 = b, b+1
+					text = fmt.Sprintf("%s=%d~%d", rl, lo2, hi2)
+				case "le", "lt":
+					lo2 = 0
+					text = fmt.Sprintf("%s=%d", rl, hi2)
+				default:
+					hi2 = 0
+					text = fmt.Sprintf("%s=%d", rl, lo2)
+				}
+				text += "|" + mk
+				call := &walkCall{Entry: "var", VarRules: []string{text}, Src: s}
+				if marker%2 == 0 {
+					call = &walkCall{Entry: "map", Rules: map[string]string{"k": text}, Src: map[string]string{"k": s}}
+				}
+				spec := fmt.Sprintf("SSize %s %s %s %s %s", sizeRuleCtor[rl], galZ(lo2), galZ(hi2), galVal(reflect.ValueOf(s), nil), gal.Str(mk))
+				term, desc := call.caseTerm([]string{spec})
+				desc["rule"] = text
+				desc["bytes"] = len(s)
+				desc["chars"] = n
+				w.Add("CW ("+term+")", desc, fmt.Sprintf("ill-formed-utf8:%s:%d:%d", rl, n, db))
+				w.Count("directed.ill-formed-utf8")
 			}
 		}
 	}
